@@ -100,6 +100,20 @@ def dvalidate_all(M, progs, impl, budgets):
     return {k: o for k, o in zip(keys, outs)}
 
 
+def constcond_all(M, progs, impl, budgets):
+    """Model.ConstCond.cc_findings (the mirror of the constant-conditional pass) on the implementation's real annotated graph."""
+    lines, keys = [], []
+    for i, (curve, src, _) in enumerate(progs):
+        for kv, kd in budgets:
+            o = impl[(i, kv, kd)]
+            if o.startswith("(ok "):
+                x = sexp.parse(o)
+                lines.append("constcond %s" % sexp.show(x[2]))
+                keys.append((i, kv, kd))
+    outs = common.run_lines(M, [], lines, shards=common.NPROC, timeout=1200) if lines else []
+    return {k: o for k, o in zip(keys, outs)}
+
+
 def count_claims(x, acc):
     if isinstance(x, list):
         if x and x[0] == "k" and len(x) == 3:
@@ -160,6 +174,9 @@ def run(ctx, proofs, budgets, check_vals=True, check_degs=True, n_quick=500, n_t
         dvalid = dvalidate_all(M, progs, impl, budgets)
         unjustified += [{"input": progs[i][1], "curve": progs[i][0], "budget": [kv, kd], "validator": "DegJustify.djust_cfg", "answer": o}
                         for (i, kv, kd), o in dvalid.items() if o == "(unjustified)"]
+    ccmodel = constcond_all(M, progs, impl, budgets) if check_vals else {}
+    cc_seen = {"reports": 0, "always_true": 0, "always_false": 0, "missing": 0}
+    cc_missing = []
     disagreements, failing = [], []
     status = {}
     claims = {"val": 0, "deg": 0, "deg_le_quadratic": 0, "phi_val": 0, "literal": 0}
@@ -183,6 +200,26 @@ def run(ctx, proofs, budgets, check_vals=True, check_degs=True, n_quick=500, n_t
         if m is None or sexp.parse(m) != x[2]:
             disagreements.append({"input": src, "curve": curve, "budget": [kv, kd],
                                   "model": (m or "")[:300], "impl": sexp.show(x[2])[:300]})
+        if check_vals:
+            # the CS0009 reports of the real pass against the mirror of the pass evaluated on the same (validated) claims
+            real_cc = [sexp.show(y) for y in x[5][1:]] if len(x) > 5 else []
+            want_cc = [sexp.show(y) for y in sexp.parse(ccmodel[(i, kv, kd)])[1:]]
+            cc_seen["reports"] += len(real_cc)
+            for y in real_cc:
+                txt = sexp.unhex(sexp.parse(y)[2]) if sexp.parse(y)[2] != "-" else "-"
+                cc_seen["always_true"] += txt.endswith("true.")
+                cc_seen["always_false"] += txt.endswith("false.")
+                if y in want_cc:
+                    want_cc.remove(y)
+                else:
+                    pos = sexp.parse(y)
+                    failing.append({"input": src, "curve": curve, "budget": [kv, kd], "kind": "finding", "classes": [],
+                                    "impl": "reports `%s` for the if statement at block %s, statement %s" % (txt, pos[0], pos[1]),
+                                    "spec": "the value claim on that condition (validated, and true in every run) gives: %s"
+                                            % ([sexp.unhex(sexp.parse(w)[2]) for w in want_cc if sexp.parse(w)[:2] == pos[:2]] or "no boolean constant")})
+            if want_cc:
+                cc_seen["missing"] += len(want_cc)
+                cc_missing.append({"input": src, "curve": curve, "budget": [kv, kd], "model": want_cc[:3], "impl": real_cc[:3]})
         before = dict(claims)
         count_claims(x[2], claims)
         if claims["val"] - before["val"] > claims["literal"] - before["literal"] or claims["deg_le_quadratic"] > before["deg_le_quadratic"]:
@@ -219,7 +256,7 @@ def run(ctx, proofs, budgets, check_vals=True, check_degs=True, n_quick=500, n_t
                                         "kind": "degree"})
                     if bad:
                         break
-    return {"disagreements": disagreements, "failing": failing, "unjustified": unjustified, "validated": len(valid),
+    return {"cc_seen": cc_seen, "cc_missing": cc_missing, "disagreements": disagreements, "failing": failing, "unjustified": unjustified, "validated": len(valid),
             "dvalidated": sum(1 for o in dvalid.values() if o == "(justified)"), "dskipped_arrays": sum(1 for o in dvalid.values() if o == "(arrays)"), "status": status, "claims": claims,
             "nontrivial": len(nontrivial), "evaluations": evaluations, "programs": len(progs),
             "exercised_value_claims": exercised_v, "exercised_degree_claims": exercised_d,
@@ -260,6 +297,10 @@ def verdict(ctx, proofs, r, kinds, known_classes, extra_cov=None):
             d = r["disagreements"][0]
             ctx.violation("correspondence Model.Propagate vs Cfg::propagate_values/propagate_degrees broken (%d cases)" % len(r["disagreements"]),
                           {"broken": "correspondence propagate (Model.Propagate.propagate)", "first": d}, no_input=True)
+        elif r.get("cc_missing") and "finding" in kinds:
+            d = r["cc_missing"][0]
+            ctx.violation("correspondence Model.ConstCond vs constant_conditional.rs broken: %d reports the mirror expects are not produced" % len(r["cc_missing"]),
+                          {"broken": "correspondence constant-conditional pass (Model.ConstCond.cc_findings)", "first": d}, no_input=True)
         elif proofs["failures"]:
             ctx.violation("proof obligations no longer check: " + "; ".join(proofs["failures"])[:400],
                           {"broken": "props/%s.v" % ctx.prop, "failures": proofs["failures"]}, no_input=True)
@@ -283,6 +324,8 @@ def verdict(ctx, proofs, r, kinds, known_classes, extra_cov=None):
         "disagreements_model_vs_impl": len(r["disagreements"]),
         "input_origins": r["origins"],
     }
+    if "finding" in kinds:
+        cov["constant_condition_reports_compared_with_Model_ConstCond"] = r["cc_seen"]
     if extra_cov:
         cov.update(extra_cov)
     ctx.coverage.update(cov)
